@@ -24,7 +24,8 @@ REVERSED_FIXES = {
     "D01_cusum_stale_index": ["C04", "C02"], "D02_hdm_lambda": ["C02", "C07"], "D03_adwinacc_typeerror": ["C03", "C01", "C16"],
     "D04_adwinacc_ctor": ["C03"], "D05_nnsp_split": ["C10", "C18"], "D06_kdq_persistence": ["C09"], "D07_pcacd_noscale": ["C11"],
     "D08_pcacd_bounds": ["C11"], "D10b_univariate_guard": ["C14"], "D11_injector_dict": ["C15"], "D12_adwin_empty_rows": ["C03"],
-    "D13_cdbd_list_input": ["C14"], "D14_hdm_proxy_names": ["C14"], "D15_hdm_reference_labels": ["C14"], "D16_md3_label_column_order": ["C19"],
+    "D13_cdbd_list_input": ["C14"], "D14_hdm_proxy_names": ["C14"], "D15_hdm_reference_labels": ["C14"],
+    # (D16 cannot be applied in reverse any more: D18 later edited the very line it had introduced; H19 below is its reversal on today's tree)
     "D17_nnsp_offset": ["C10"], "D18_md3_label_view": ["C15"],
 }
 # seeded changes that also break a neighbouring property whose check sees them far more reliably
@@ -56,6 +57,7 @@ HAND = {
     "H15_batch_rows": ("menelaus/detector.py", "        if ary.shape[0] <= 1:\n            raise ValueError(\n                \"Input for batch detectors", "        if ary.shape[0] < 1:\n            raise ValueError(\n                \"Input for batch detectors", False, ["C14"]),
     "H16_label_swap_mutates": ("menelaus/injection/injector.py", "        copy = np.copy(data)\n", "        copy = np.asarray(data)\n", False, ["C15"]),
     "H17_row_order_hdm": ("menelaus/data_drift/histogram_density_method.py", "test_density = self._build_histograms(X, mins, maxes)", "test_density = self._build_histograms(X.iloc[: max(2, len(X) - 1)], mins, maxes)", False, ["C18", "C07"]),
+    "H19_md3_label_order_D16_reversed": ("menelaus/concept_drift/md3.py", "labeled_sample = labeled_sample[reference_columns].copy()", "labeled_sample = labeled_sample.copy()", False, ["C19"]),
     "H18_lfr_label_identity": ("menelaus/concept_drift/lfr.py", "        y_p = 1 * y_pred\n        y_t = 1 * y_true", "        y_p = 1 * y_pred\n        y_t = int(str(y_true) == \"1\")", False, ["C16"]),
 }
 
